@@ -521,6 +521,10 @@ fn strings(t: &mut Tab, prng: &mut Prng, thorough: bool) {
         // `==` on StringBuf (two locks in one statement) x aliasing classes: the same buffer twice (must not
         // wait for itself: solo, short timeout), two buffers with equal / different contents, compared after
         // one of them was appended to
+        // (one subject per string class: a hanging `==` costs a timeout per case)
+        if all.iter().position(|x| str_class(x) == str_class(st)) != all.iter().position(|x| x == st) {
+            continue;
+        }
         let mark = t.out.len();
         t.add("StringBuf.from", &["StringBuf.push_string"], "StringBuf.eq.alias",
             "fn main(s: String) -> bool { let a = StringBuf.from(s); let b = a; b.push_string(s); a == b }", "S>b",
